@@ -496,6 +496,65 @@ Proof.
   rewrite result_f_float by exact F. cbn [bind]. apply sqrt_correct_l; assumption.
 Qed.
 
+(* ---------- rational -> double: the quotient with a sticky bit that is handed to Flocq's rounding *)
+Local Open Scope Z_scope.
+Lemma bitlen_spec z : 0 < z -> 2 ^ (bitlen z - 1) <= z < 2 ^ bitlen z.
+Proof.
+  intros H. unfold bitlen. destruct (z <=? 0) eqn:E; [apply Z.leb_le in E; lia|].
+  replace (Z.log2 z + 1 - 1) with (Z.log2 z) by lia. replace (Z.log2 z + 1) with (Z.succ (Z.log2 z)) by lia.
+  apply Z.log2_spec. exact H.
+Qed.
+
+(* the quotient handed to binary_normalize has at least 64 bits, so its sticky bit sits far below the rounding position *)
+Lemma quotient_long n d : 0 < d -> 0 < n ->
+  let k := Z.max 0 (64 + bitlen d - bitlen n) in
+  2 ^ 63 <= (n * 2 ^ k) / d.
+Proof.
+  intros Hd Hn k. pose proof (bitlen_spec n Hn) as [Ln _]. pose proof (bitlen_spec d Hd) as [_ Ud].
+  apply Z.div_le_lower_bound; [exact Hd|].
+  assert (Hk : 64 + bitlen d - bitlen n <= k) by (unfold k; lia).
+  assert (K0 : 0 <= k) by (unfold k; lia).
+  assert (B1 : 1 <= bitlen n) by (unfold bitlen; destruct (n <=? 0) eqn:E; [apply Z.leb_le in E; lia|]; pose proof (Z.log2_nonneg n); lia).
+  assert (B2 : 0 <= bitlen d) by (unfold bitlen; destruct (d <=? 0); [lia|]; pose proof (Z.log2_nonneg d); lia).
+  assert (P : 2 ^ (63 + bitlen d) <= 2 ^ (bitlen n - 1) * 2 ^ k).
+  { rewrite <- Z.pow_add_r by lia. apply Z.pow_le_mono_r; lia. }
+  rewrite Z.pow_add_r in P by lia.
+  assert (0 < 2 ^ k) by (apply Z.pow_pos_nonneg; lia).
+  assert (0 < 2 ^ 63) by (apply Z.pow_pos_nonneg; lia).
+  nia.
+Qed.
+
+Lemma rat_to_float_l n d : 0 < d -> n <> 0 ->
+  let a := Z.abs n in
+  let k := Z.max 0 (64 + bitlen d - bitlen a) in
+  let q := (a * 2 ^ k) / d in
+  let r := (a * 2 ^ k) mod d in
+  let m := 2 * q + (if r =? 0 then 0 else 1) in
+  let x := F2R (Float radix2 (if n <? 0 then - m else m) (- (k + 1))) in
+  (d * q <= a * 2 ^ k < d * (q + 1) /\ (r = 0 <-> d * q = a * 2 ^ k) /\ 2 ^ 63 <= q) /\
+  (if fits64 x then result_f (VQ n d) = Ok (f64_of_q n d) /\ B2R (f64_of_q n d) = rnd64 x
+   else result_f (VQ n d) = Err EOverflow).
+Proof.
+  intros Hd Hn a k q r m x.
+  assert (Ha : 0 < a) by (unfold a; lia).
+  split.
+  - pose proof (Z.div_mod (a * 2 ^ k) d ltac:(lia)) as DM. pose proof (Z.mod_pos_bound (a * 2 ^ k) d Hd) as MB.
+    fold q in DM. fold r in DM, MB.
+    split; [nia|]. split; [split; intros H1; nia|]. apply quotient_long; assumption.
+  - assert (E : f64_of_q n d = binary_normalize 53 1024 _ _ mode_NE (if n <? 0 then - m else m) (- (k + 1)) false).
+    { unfold f64_of_q. fold a. destruct (a =? 0) eqn:A0; [apply Z.eqb_eq in A0; lia|]. fold k.
+      unfold m, q, r, Z.div, Z.modulo. destruct (Z.div_eucl (a * 2 ^ k) d) as [q' r']. reflexivity. }
+    pose proof (binary_normalize_correct 53 1024 _ _ mode_NE (if n <? 0 then - m else m) (- (k + 1)) false) as H.
+    cbv zeta in H. fold x in H. rewrite <- E in H.
+    unfold fits64, rnd64. cbn [round_mode] in H. unfold result_f. cbn [to_flt].
+    destruct (Rlt_bool _ _).
+    + destruct H as [V [F _]]. split; [|exact V]. destruct (f64_of_q n d); try discriminate F; reflexivity.
+    + assert (M : mkf (f64_of_q n d) = Err EOverflow) by (eapply overflow_is_inf; eauto).
+      unfold mkf in M. destruct (classify (f64_of_q n d)); cbn [bind] in M; congruence.
+Qed.
+
+Local Open Scope R_scope.
+
 (* ---------- the comparison used by the correspondence means what it says *)
 Lemma agrees_int r z : agrees r (OInt z) = true <-> r = Ok (VI z).
 Proof.
